@@ -23,14 +23,15 @@ type NewStoreCase struct {
 	Names     []string       `json:"names"`      // declared, duplicates allowed
 	UseStruct bool           `json:"use_struct"` // additionally declare "s1","s2" through a tagged struct
 	Fails     map[string]int `json:"fails"`      // per name: n>=0 transient failures before success; -1 hang until ctx; -2 permanent error
-	Cache     string         `json:"cache"`      // none | valid | invalid | readerr
+	FailKind  string         `json:"fail_kind"`  // what a transient/permanent failure looks like: err | denied | notfound
+	Cache     string         `json:"cache"`      // none | valid | invalid (syntax) | typeerr (well-formed JSON, wrong type somewhere) | readerr
 	Cached    []string       `json:"cached"`     // names present in the cache document
 	Stale     bool           `json:"stale"`      // cached versions are older than the service's
 	Ctx       string         `json:"ctx"`        // bg | deadline | cancel | cancelled
 	CtxMs     int            `json:"ctx_ms"`
 	Client    string         `json:"client"` // svc | file
 	FileHas   []string       `json:"file_has"`
-	Misconfig string         `json:"misconfig"` // "" | nilclient | nonames | emptyname
+	Misconfig string         `json:"misconfig"` // "" | nilclient | nonames | emptyname (last) | emptyfirst | emptymid
 	ExpiryS   int            `json:"expiry_s"`  // StoreConfig.ExpiryAge in seconds (0 = none)
 	StampAgo  int            `json:"stamp_ago"` // cached entries were last accessed this many seconds ago (-1 = stamp 0)
 }
@@ -49,14 +50,15 @@ func genNewStoreCase(rt *rapid.T) NewStoreCase {
 	for _, n := range append(append([]string{}, c10Pool...), "s1", "s2") {
 		c.Fails[n] = rapid.SampledFrom([]int{0, 0, 0, 1, 2, 5, 13, 16, -1, -2}).Draw(rt, "fails-"+n)
 	}
-	c.Cache = rapid.SampledFrom([]string{"none", "valid", "valid", "valid", "invalid", "readerr"}).Draw(rt, "cache")
+	c.Cache = rapid.SampledFrom([]string{"none", "valid", "valid", "valid", "invalid", "typeerr", "typeerr", "readerr"}).Draw(rt, "cache")
+	c.FailKind = rapid.SampledFrom([]string{"err", "err", "denied", "notfound"}).Draw(rt, "failkind")
 	c.Cached = rapid.SliceOfNDistinct(rapid.SampledFrom(append(append([]string{}, c10Pool...), "s1", "s2", "zz")), 0, 7, func(s string) string { return s }).Draw(rt, "cached")
 	c.Stale = rapid.Bool().Draw(rt, "stale")
 	c.Ctx = rapid.SampledFrom([]string{"bg", "bg", "deadline", "deadline", "cancel", "cancelled"}).Draw(rt, "ctx")
 	c.CtxMs = rapid.SampledFrom([]int{3, 250, 4000, 10007, 60011}).Draw(rt, "ctxms")
 	c.Client = rapid.SampledFrom([]string{"svc", "svc", "svc", "file"}).Draw(rt, "client")
 	c.FileHas = rapid.SliceOfNDistinct(rapid.SampledFrom(append(append([]string{}, c10Pool...), "s1", "s2")), 0, 6, func(s string) string { return s }).Draw(rt, "filehas")
-	c.Misconfig = rapid.SampledFrom([]string{"", "", "", "", "", "", "nilclient", "nonames", "emptyname"}).Draw(rt, "misconfig")
+	c.Misconfig = rapid.SampledFrom([]string{"", "", "", "", "", "", "nilclient", "nonames", "emptyname", "emptyfirst", "emptymid"}).Draw(rt, "misconfig")
 	c.ExpiryS = rapid.SampledFrom([]int{0, 0, 10, 3600}).Draw(rt, "expiry")
 	c.StampAgo = rapid.SampledFrom([]int{-1, 0, 5, 11, 100000}).Draw(rt, "stampago")
 	return c
@@ -81,6 +83,10 @@ func runC10(t *testing.T, c NewStoreCase) (v *h.Violation, info h.Info) {
 func runC10Bubble(dir string, c NewStoreCase, info *h.Info) *h.Violation {
 	svc := fake.NewSvc()
 	all := append(append([]string{}, c10Pool...), "s1", "s2", "zz")
+	fk := c.FailKind
+	if fk == "" {
+		fk = "err"
+	}
 	for _, n := range all {
 		svc.Set(n, 5, []byte("svc-"+n))
 		f := c.Fails[n]
@@ -88,11 +94,11 @@ func runC10Bubble(dir string, c NewStoreCase, info *h.Info) *h.Violation {
 		case f == -1:
 			svc.SetDefault(n, fake.Beh{Kind: "hang"})
 		case f == -2:
-			svc.SetDefault(n, fake.Beh{Kind: "err"})
+			svc.SetDefault(n, fake.Beh{Kind: fk})
 		case f > 0:
 			sc := make([]fake.Beh, f)
 			for i := range sc {
-				sc[i] = fake.Beh{Kind: "err"}
+				sc[i] = fake.Beh{Kind: fk}
 			}
 			svc.SetScript(n, sc)
 		}
@@ -113,8 +119,19 @@ func runC10Bubble(dir string, c NewStoreCase, info *h.Info) *h.Violation {
 			doc[n] = model.CacheEntry{Version: cachedVer, Value: []byte("cache-" + n), LastAccess: la}
 		}
 		data := model.EncodeCache(doc)
-		if c.Cache == "invalid" {
+		switch c.Cache {
+		case "invalid":
 			data = append(data[:len(data)-1], []byte(`,"broken":null}`)...)
+		case "typeerr":
+			// well-formed JSON, but one sibling entry (or one field of one entry) has the wrong JSON type:
+			// the document as a whole does not decode, so none of it is a valid cache
+			extra := []string{`"zuul":[1,2,3]`, `"zuul":{"secret":17,"lastAccess":"0"}`, `"zuul":{"secret":{"Version":"seven","Value":"eA=="},"lastAccess":"0"}`, `"0zuul":"x"`}[(len(c.Cached)+len(c.Names))%4]
+			if len(doc) == 0 {
+				data = []byte("{" + extra + "}")
+			} else {
+				data = append(data[:len(data)-1], []byte(","+extra+"}")...)
+			}
+			info.Class("cache-well-formed-but-undecodable")
 		}
 		cache = fake.NewCache(data)
 		cache.FailRead = c.Cache == "readerr"
@@ -173,6 +190,10 @@ func runC10Bubble(dir string, c NewStoreCase, info *h.Info) *h.Violation {
 		cfg.Secrets, cfg.Structs = nil, nil
 	case "emptyname":
 		cfg.Secrets = append(cfg.Secrets, "")
+	case "emptyfirst":
+		cfg.Secrets = append([]string{""}, cfg.Secrets...)
+	case "emptymid":
+		cfg.Secrets = append(append(append([]string{}, cfg.Secrets[:1]...), "", ""), cfg.Secrets[1:]...)
 	}
 	// every context derives from one the harness can end, so that a construction
 	// that would legitimately retry forever can be stopped after the observation window
@@ -397,7 +418,7 @@ func runC10Bubble(dir string, c NewStoreCase, info *h.Info) *h.Violation {
 
 var c10 = &h.Campaign[NewStoreCase]{
 	Prop: "C10", Sub: "newstore",
-	Rule: "rapid + testing/synctest (virtual time): declared names (1-6 from a pool of 4, duplicates frequent, optionally two more through a tagged struct), cache class (none / valid with any subset of names, fresh or stale versions / invalid document / Read error), per-name service script (k transient failures then success, hang until the context ends, permanent error), context (background, deadline, cancelled at T, already cancelled; instants off the back-off grid), client kind (scripted service or FileClient holding any subset), misconfigurations; non-trivial = construction that needed >= 2 rounds with a partially valid cache, or ended by context expiry, or a FileClient lacking a declared secret; distinct by scenario",
+	Rule: "rapid + testing/synctest (virtual time): declared names (1-6 from a pool of 4, duplicates frequent, optionally two more through a tagged struct), cache class (none / valid with any subset of names, fresh or stale versions / syntactically invalid document / well-formed document with a wrongly typed sibling entry next to entries for declared names / Read error), per-name service script (k transient failures then success, hang until the context ends, permanent error; failures are a plain error, access-denied or not-found), context (background, deadline, cancelled at T, already cancelled; instants off the back-off grid), client kind (scripted service or FileClient holding any subset), misconfigurations (nil client, no names, an empty name first / in the middle / last); non-trivial = construction that needed >= 2 rounds with a partially valid cache, or ended by context expiry, or a FileClient lacking a declared secret; distinct by scenario",
 	Quick: 4000, Thorough: 2000000,
 	Gen:   genNewStoreCase,
 	Run:   runC10,
